@@ -71,6 +71,7 @@ import RoProofs.Fault.SubscribeFn
 import RoProofs.Ops.Basic
 import RoGen.Catalogue
 import RoGen.FaultFacts
+import RoProofs.ObsNil
 namespace Ro.C07
 open Ro Ro.Fault
 
@@ -443,8 +444,34 @@ example : (runScript (mapF dbl) { srcSub := some (2, .panicErr (.user 5)) } .syn
     [.next (c 1) 2, .next (c 2) 4, .error (c 0) (.observable (.user 5))] := by decide
 example : (runFinalizers [none, some (.user 1), none, some (.panicVal 2)]) = (4, [.unsubscription (.user 1), .unsubscription (.panicVal 2)]) := by decide
 
+/-! ### an observer built with nil callbacks (RoModel/ObsNil.lean; tie: kind=nilobs) -/
+
+/-- "failures that no one can receive go to the unhandled-error hook": the Next callback of an observer WITHOUT an error
+    callback panics while the observer is open — the panic, wrapped once and still matching its cause, reaches
+    `OnUnhandledError`; nothing reaches the observer's callbacks or the dropped-notification hook; the observer stays open -/
+theorem nil_error_callback_panic_unhandled (cfg : ObsNil.Cfg) (fault : Nat → Option Err) (hn : cfg.hasNext = true)
+    (he : cfg.hasError = false) (s : ObsNil.St) (hs : s.status = 0) (c : Ctx) (v : Int) (p : Err) (hf : fault s.calls = some p) :
+    (ObsNil.step cfg fault s (.next c v)).unhandled = s.unhandled ++ [.observer p] ∧
+    (ObsNil.step cfg fault s (.next c v)).trace = s.trace ∧ (ObsNil.step cfg fault s (.next c v)).dropped = s.dropped ∧
+    (ObsNil.step cfg fault s (.next c v)).status = 0 ∧ p ∈ (Err.observer p).chain :=
+  ObsNil.step_panic_unhandled cfg fault hn he s hs c v p hf
+
+/-- the dropped-notification hook only sees notifications the producer sent: a recovered panic is never reported there,
+    for every configuration of nil callbacks, every fault plan and every raw script -/
+theorem nil_callbacks_dropped_from_script (cfg : ObsNil.Cfg) (fault : Nat → Option Err) (script : List (Notif Int)) :
+    ∀ n ∈ (ObsNil.run cfg fault script).dropped, n ∈ script := ObsNil.dropped_from_script cfg fault script
+
+/-- … and the unhandled-error hook only sees wrapped panic values of the plan -/
+theorem nil_error_callback_unhandled_only_panics (cfg : ObsNil.Cfg) (fault : Nat → Option Err) (he : cfg.hasError = false)
+    (script : List (Notif Int)) :
+    ∀ e ∈ (ObsNil.run cfg fault script).unhandled, ∃ k p, fault k = some p ∧ e = .observer p :=
+  ObsNil.unhandled_only_panics cfg fault he script
+
 end Ro.C07
 
+#print axioms Ro.C07.nil_error_callback_panic_unhandled
+#print axioms Ro.C07.nil_callbacks_dropped_from_script
+#print axioms Ro.C07.nil_error_callback_unhandled_only_panics
 #print axioms Ro.C07.next_fault
 #print axioms Ro.C07.fault_not_reached
 #print axioms Ro.C07.error_return
